@@ -204,6 +204,31 @@ struct SmallSetEngine : EngineBase {
     if (got.key != want->key || (exact_payload && got.pay != want->pay)) violation("C11,C04", "iterator.wrong_element", fmt("%s designates %d.%u, expected %d.%u", what, got.key, got.pay, want->key, want->pay));
   }
 
+  // heterogeneous lookups under a transparent comparator: an int key (equivalent to at most one element) and a HalfKey
+  // (equivalent to a run of elements: std::set::count returns the length of the run, find any element of it)
+  template <class Set, class Model, class C = typename SSInfo<Set>::cmp>
+  typename std::enable_if<CmpTransparent<C>::value>::type hetero_lookups(const Set &s, const Model &m, int key) {
+    for (int form = 0; form < 2; ++form) {
+      typename Set::const_iterator fit;
+      bool c = false;
+      size_t cnt = 9, mc = 0;
+      HalfKey hk{key >> 1};
+      if (form == 0) window([&] { fit = s.find(key); c = s.contains(key); cnt = s.count(key); });
+      else window([&] { fit = s.find(hk); c = s.contains(hk); cnt = s.count(hk); });
+      if (threw) { violation("C04", "model.unexpected_exception", threw_what); return; }
+      { MonScope mm; mc = form == 0 ? m.count(key) : m.count(hk); }
+      int cl = classify(s, fit, "find(heterogeneous key)");
+      if (cl == -2) return;
+      MonScope mm;
+      bool found_ok = mc == 0 ? cl == -1 : (cl != -1 && (form == 0 ? EI<E>::val(*fit).key == key : (EI<E>::val(*fit).key >> 1) == hk.c));
+      if (!found_ok || c != (mc != 0) || cnt != mc)
+        violation("C04", "model.heterogeneous_lookup", fmt("heterogeneous key (%s %d) equivalent to %zu elements: contains %d, count %zu, find %s", form == 0 ? "int" : "half-key", form == 0 ? key : hk.c, mc, c, cnt, cl == -1 ? "end()" : "an element"));
+      ++counters[mc > 1 ? "hetero_lookups_run_gt_1" : "hetero_lookups"];
+    }
+  }
+  template <class Set, class Model, class C = typename SSInfo<Set>::cmp>
+  typename std::enable_if<!CmpTransparent<C>::value>::type hetero_lookups(const Set &, const Model &, int) {}
+
   E *hold = nullptr;
   E *make_hold(Val v) { MonScope m; hold = new E(v.key, v.pay); return hold; }
   void drop_hold() { MonScope m; delete hold; hold = nullptr; }
@@ -476,6 +501,7 @@ struct SmallSetEngine : EngineBase {
         }
         Val w = ex ? *ex : Val();
         expect_elem(s, fit, "find", ex ? &w : nullptr, true);
+        if (!g_cut) hetero_lookups(s, m, x.key);
         alloc_ok = false;
         break;
       }
